@@ -21,7 +21,7 @@ RULE = ("GFF3 file databases with a depth-4 hierarchy, multi-parent and id-less 
         "fault cases: an update of n features whose one-shot source raises at position k for every k in 0..n, "
         "checklines 0 and 1; non-trivial history = contains an update after a delete or reopen; distinct by (base salt, word) "
         "and by (n, k, checklines)")
-REQUIRED = ["live-handle comparisons", "history steps applied", "content dumps compared with the model", ".bak compared with pre-operation content",
+REQUIRED = ["bulk deletes (hundreds of ids in one call)", "iteration order compared after a step", "live-handle comparisons", "history steps applied", "content dumps compared with the model", ".bak compared with pre-operation content",
             "auto-generated keys checked for freshness", "faults injected", "faults injected mid-import (beyond the peek window)",
             "reopen steps", "failpoints fired inside gffutils", "metamorphic comparisons (batched updates vs single import)",
             "metamorphic comparisons (delete undoes the last update)"]
@@ -98,7 +98,9 @@ def derive(op, model, step, salt):
     if op == "A":
         nid = "n%da" % step
         batch = [rec("mRNA", 10 * step + 1, 10 * step + 50, [["ID", [nid]], ["Parent", [pick() or "ghost"]]]),
-                 rec("exon", 10 * step + 1, 10 * step + 20, [["Parent", [nid]]])]
+                 rec("exon", 10 * step + 1, 10 * step + 20, [["Parent", [nid]]]),
+                 # a key base that did not exist when the database was created
+                 rec("tRNA", 10 * step + 2, 10 * step + 9, [["Note", ["no id %d" % step]]])]
         k = pick_own()
         if k:
             batch.append(rec("match", 7000 + step, 7100 + step, [["ID", [k]], ["Note", ["dup%d" % step]]]))
@@ -106,7 +108,27 @@ def derive(op, model, step, salt):
     if op == "B":
         batch = []
         k = pick_own()
-        if k:
+        variant = rng.randrange(4)
+        spawned = [(key, d) for key, ds in sorted(model.dups.items()) for d in ds if d in model.feats and key in model.feats]
+        gone = [key for key, ds in sorted(model.dups.items()) if key not in model.feats and any(d in model.feats for d in ds)]
+        if variant == 2 and spawned:
+            # an arrival that agrees with a feature filed earlier under '<key>_n': it is merged into that one
+            key, d = spawned[rng.randrange(len(spawned))]
+            f = model.feats[d]
+            attrs = [["ID", [key]]] + [[a, list(v)] for a, v in f["attrs"] if a == "Parent"] + [["Note", ["into-spawn%d" % step]]]
+            batch.append({"cols": dict(f["cols"]), "attrs": attrs})
+        elif variant == 3 and gone:
+            # the key itself was deleted meanwhile and comes back (no collision: a plain insert)
+            key = gone[rng.randrange(len(gone))]
+            batch.append(rec("gene", 9000 + step, 9100 + step, [["ID", [key]], ["Note", ["back%d" % step]]]))
+        elif k and variant == 1:
+            # same key, other coordinates: filed under a fresh '<key>_n'
+            f = model.feats[k]
+            cols = dict(f["cols"])
+            cols["start"], cols["end"] = 20000 + 97 * step + salt, 20050 + 97 * step + salt
+            attrs = [[a, list(v)] for a, v in f["attrs"] if a in ("ID", "Parent")] + [["Note", ["spawn%d" % step]]]
+            batch.append({"cols": cols, "attrs": attrs})
+        elif k:
             f = model.feats[k]
             attrs = [[a, list(v)] for a, v in f["attrs"] if a in ("ID", "Parent")]
             attrs.append(["Note", ["merged%d" % step]])
@@ -130,8 +152,8 @@ def derive(op, model, step, salt):
         k = pick()
         if not k:
             return {"op": "noop"}
-        how = rng.choice(["str", "feature", "list"])
-        more = [pick()] if how == "list" else []
+        how = rng.choice(["str", "feature", "list", "generator"])
+        more = [pick()] if how in ("list", "generator") else []
         return {"op": "delete", "ids": sorted(set([k] + more)), "how": how}
     if op == "R":
         if len(ids) < 2:
@@ -140,7 +162,8 @@ def derive(op, model, step, salt):
             p, c = rng.sample(ids, 2)
             lvl = rng.choice([1, 1, 2])
             if (p, c, lvl) not in model.rels and (p, c, lvl) not in model.optional:
-                return {"op": "add_relation", "parent": p, "child": c, "level": lvl, "as_feature": rng.random() < 0.5}
+                return {"op": "add_relation", "parent": p, "child": c, "level": lvl, "as_feature": rng.random() < 0.5,
+                        "hooks": rng.random() < 0.4}
         return {"op": "noop"}
     if op == "O":
         return {"op": "reopen"}
@@ -175,6 +198,8 @@ def execute(ctx, case):
             failpoint(ctx, case)
         elif case["kind"] == "metamorphic":
             metamorphic(ctx, case)
+        elif case["kind"] == "bulk":
+            bulk(ctx, case)
         else:
             fault(ctx, case)
     finally:
@@ -237,17 +262,36 @@ def history(ctx, case):
                         db.delete(ids[0], make_backup=True)
                     elif args["how"] == "feature":
                         db.delete(db[ids[0]], make_backup=True)
+                    elif args["how"] == "generator":
+                        db.delete((db[i] for i in list(ids)), make_backup=True)      # a one-shot iterable of Features
                     else:
                         db.delete([db[i] if n % 2 else i for n, i in enumerate(ids)], make_backup=True)
                     model.delete(ids)
                     check_bak(ctx, case, dbfn, before, step, trace)
                 elif args["op"] == "add_relation":
                     p, c = args["parent"], args["child"]
+                    kw, pe, ce = {}, None, None
+                    if args.get("hooks"):
+                        # the documented hook functions: they return the (modified) features, which are written back
+                        pend = (model.feats[p]["cols"]["end"] or 1) + 7
+
+                        def parent_func(parent, child, pend=pend):
+                            parent.attributes["adopted"] = [child.id]
+                            parent.end = pend
+                            return parent
+
+                        def child_func(parent, child):
+                            child.attributes["adopted_by"] = [parent.id]
+                            child.score = "77"
+                            return child
+                        kw = {"parent_func": parent_func, "child_func": child_func}
+                        pe = {"cols": {"end": pend}, "attrs": [["adopted", [c]]]}
+                        ce = {"cols": {"score": "77"}, "attrs": [["adopted_by", [p]]]}
                     if args["as_feature"]:
-                        db.add_relation(db[p], db[c], args["level"])
+                        db.add_relation(db[p], db[c], args["level"], **kw)
                     else:
-                        db.add_relation(p, c, args["level"])
-                    model.add_relation(p, c, args["level"])
+                        db.add_relation(p, c, args["level"], **kw)
+                    model.add_relation(p, c, args["level"], parent_edit=pe, child_edit=ce)
                 elif args["op"] == "reopen":
                     db.conn.close()
                     db = gffutils.FeatureDB(dbfn)
@@ -266,6 +310,16 @@ def history(ctx, case):
                 if dd:
                     ctx.violation(case, {"why": "%s changed the database content" % ("reopen" if args["op"] == "reopen" else "update with no features"),
                                          "diff": dd, "step": step, "trace": trace})
+                    return
+            # a full iteration keeps the relative order of the features that were neither added nor replaced
+            if args["op"] in ("delete", "add_relation", "reopen") or (args["op"] == "update" and not args["batch"]):
+                alive = set(f["id"] for f in after["features"])
+                want = [f["id"] for f in before["features"] if f["id"] in alive]
+                got_order = [f.id for f in db.all_features()]
+                ctx.mon("iteration order compared after a step")
+                if got_order != want:
+                    ctx.violation(case, {"why": "the iteration order of untouched features changed after %s" % args["op"],
+                                         "before": want, "after": got_order, "step": step, "trace": trace})
                     return
             # freshness: an auto-generated key never equals a key handed out earlier
             new_ids = set(f["id"] for f in after["features"]) - set(f["id"] for f in before["features"])
@@ -616,6 +670,46 @@ def failpoint(ctx, case):
         cleanup(dbfn)
 
 
+def bulk(ctx, case):
+    """One delete() call with hundreds of ids (and one update adding hundreds of children under one parent)."""
+    import gffutils
+
+    n, k = case["n"], case["k"]
+    recs = [rec("gene", 1, 10 ** 6, [["ID", ["g"]]]), rec("mRNA", 1, 10 ** 6, [["ID", ["m"]], ["Parent", ["g"]]])]
+    recs += [rec("exon", 10 * i + 1, 10 * i + 5, [["ID", ["e%04d" % i]], ["Parent", ["m"]]]) for i in range(n)]
+    dbfn = ctx.tmp(".db")
+    try:
+        db = gffutils.create_db("\n".join(line(r) for r in recs[:2 + n // 2]) + "\n", dbfn, from_string=True)
+        model = Model()
+        model.update(recs[:2 + n // 2], "error")
+        db.update("\n".join(line(r) for r in recs[2 + n // 2:]) + "\n", from_string=True, make_backup=False)
+        model.update(recs[2 + n // 2:], "error")
+        d = model.compare(dbdump.dump(dbfn))
+        if d:
+            ctx.violation(case, dict(d, note="bulk update"))
+            return
+        rng = random.Random(case["seed"])
+        victims = rng.sample(["e%04d" % i for i in range(n)], k)
+        form = case["form"]
+        if form == "ids":
+            db.delete(list(victims), make_backup=False)
+        elif form == "features":
+            db.delete([db[v] for v in victims], make_backup=False)
+        else:
+            db.delete((db[v] for v in victims), make_backup=False)
+        model.delete(victims)
+        ctx.mon("bulk deletes (hundreds of ids in one call)")
+        d = model.compare(dbdump.dump(dbfn))
+        if d:
+            ctx.violation(case, dict(d, note="after one delete() call with %d ids (%s)" % (k, form)))
+            return
+        db.conn.close()
+    except Exception as ex:
+        ctx.violation(case, {"why": "bulk update/delete raised %r" % (ex,)})
+    finally:
+        cleanup(dbfn)
+
+
 def nontrivial(word):
     seen = False
     for op in word:
@@ -657,6 +751,11 @@ def run(ctx):
                 execute(ctx, case)
                 ctx.case(("fault", n, k, ck), k < n, sample=case, cls="fault position")
     run_failpoints(ctx)
+    for j, form in enumerate(["ids", "features", "generator"]):
+        if ctx.mine(j) or ctx.tier == "thorough":
+            case = {"kind": "bulk", "n": rng.choice([1100, 1300]), "k": rng.choice([501, 640, 1001]), "seed": rng.randrange(10 ** 6), "form": form}
+            execute(ctx, case)
+            ctx.case(("bulk", case["n"], case["k"], form, case["seed"]), True, sample=case, cls="bulk delete")
     for _ in range(ctx.budget(160, 6000)):
         case = {"kind": "metamorphic", "fmt": rng.choice(["gff3", "gtf"]), "seed": rng.randrange(10 ** 6), "nbatches": rng.randrange(2, 5)}
         execute(ctx, case)
